@@ -209,9 +209,12 @@ def _c13_bounded(tier, seed):
     try:
         for vi, argv in enumerate(vectors):
             for libdir in (None, '/opt/wl'):
-                for ld in (None, '/usr/lib/x'):
+                # the parent's own WAYLAND_DEBUG (unset, already 1, empty, 0, client, server) must not decide what the child gets:
+                # the statement says WAYLAND_DEBUG=1 in the program's environment (seed C13-s5, `env.setdefault`, was missed while this was always unset)
+                for ld, wd in [(l_, w_) for l_ in (None, '/usr/lib/x') for w_ in (None, '1', '', '0', 'client', 'server')]:
                     os.environ.clear(); os.environ.update(saved_env)
                     os.environ.pop('WAYLAND_DEBUG', None)
+                    if wd is not None: os.environ['WAYLAND_DEBUG'] = wd
                     if ld is None: os.environ.pop('LD_LIBRARY_PATH', None)
                     else: os.environ['LD_LIBRARY_PATH'] = ld
                     rec.clear(); rec['rc'] = (vi * 7 + (3 if libdir else 0)) % 256
@@ -224,10 +227,10 @@ def _c13_bounded(tier, seed):
                     env = k.get('env') or {}
                     ok = (len(rec.get('a', ())) == 1 and rec['a'][0] is argv and argv == before and set(k) == {'stderr', 'env', 'bufsize'}
                           and k['stderr'] == 42 and env.get('WAYLAND_DEBUG') == '1' and sp.returncode == rec['rc'] and rec.get('closed') == [42]
-                          and all(env.get(n) == v for n, v in os.environ.items() if n != 'LD_LIBRARY_PATH')
+                          and all(env.get(n) == v for n, v in os.environ.items() if n not in ('LD_LIBRARY_PATH', 'WAYLAND_DEBUG'))
                           and env.get('LD_LIBRARY_PATH') == ':'.join(x for x in (libdir, ld) if x))
                     if not ok and len(bad) < 5:
-                        bad.append({'what': '_Subprocess.run', 'command_args': argv, 'lib_dir': libdir, 'LD_LIBRARY_PATH': ld,
+                        bad.append({'what': '_Subprocess.run', 'command_args': argv, 'lib_dir': libdir, 'LD_LIBRARY_PATH': ld, 'parent_WAYLAND_DEBUG': wd,
                                     'seen_args': repr(rec.get('a')), 'seen_kw': sorted(k), 'env_WAYLAND_DEBUG': env.get('WAYLAND_DEBUG'),
                                     'env_LD_LIBRARY_PATH': env.get('LD_LIBRARY_PATH'), 'returncode': sp.returncode, 'child_rc': rec['rc']})
         # main(): RUN mode exits with the program's exit status
@@ -260,7 +263,7 @@ def _c13_bounded(tier, seed):
     finally:
         runner.subprocess.run, runner.os.close = saved
         os.environ.clear(); os.environ.update(saved_env)
-    out = {'coverage': {'bounded_standins': [{'function': '_Subprocess.run + main() run-mode exit status', 'bound': '%d argument vectors over %d words (incl. wayland-debug option spellings, quotes, backslash, empty) x lib dir x LD_LIBRARY_PATH; exit statuses %s' % (len(vectors), len(words), 'all 0..255' if tier == 'thorough' else '0,1,2,77,127,128,255'),
+    out = {'coverage': {'bounded_standins': [{'function': '_Subprocess.run + main() run-mode exit status', 'bound': '%d argument vectors over %d words (incl. wayland-debug option spellings, quotes, backslash, empty) x lib dir x LD_LIBRARY_PATH x WAYLAND_DEBUG of the parent (unset, 1, empty, 0, client, server); exit statuses %s' % (len(vectors), len(words), 'all 0..255' if tier == 'thorough' else '0,1,2,77,127,128,255'),
                                                'evaluations': tried, 'violations': len(bad), 'counted_as_proved': False}]},
            'violations': [], 'lines': []}
     if bad:
